@@ -221,8 +221,15 @@ fn plan_c06(o: &Opts) -> Vec<GroupSpec> {
       cfg.uninterpreted = uninterpreted;
       // every sixth program has in-program macros (names of call-site variables must not matter there either)
       let with_macros = i % 6 == 5;
+      // every seventh program is built around a BYODS relation (union-find / closure structures whose internal shape
+      // depends on the order in which facts arrive; the results must not)
+      let with_byods = !uninterpreted && !with_macros && i % 7 == 2;
       let prog = if uninterpreted {
          gen::gen_core(&mut r, &cfg)
+      } else if with_byods {
+         let ds = [vcore::ast::Ds::EqRel, vcore::ast::Ds::TrRel, vcore::ast::Ds::TrRelUf][vcore::rng::Src::below(&mut r, 3)];
+         let ternary = vcore::rng::Src::chance(&mut r, 40);
+         vcore::gen_ds::gen_byods(&mut r, &cfg, ds, ternary)
       } else if with_macros {
          vcore::gen_mac::gen_macros(&mut r, &cfg)
       } else {
@@ -264,7 +271,7 @@ fn plan_c06(o: &Opts) -> Vec<GroupSpec> {
       }
       // plan choices that depend on hash values (shard placement, sampled length estimates) only exist in the parallel
       // form: every second program also runs as ascent_par!, and so do its constant-renamed variants
-      let par_ok = gen::par_rejects(&prog).is_none() && i % 2 == 1;
+      let par_ok = gen::par_rejects(&prog).is_none() && i % 2 == 1 && !with_byods;
       if par_ok {
          let mut m = meta(&base, "base_par", Kind::AscentPar, false);
          m.labels = vec!["variant:base_par".into()];
